@@ -185,6 +185,7 @@ func c10Case(r *fw.Rand, index string) fw.Case {
 // blocks the delete did not touch may be copied without decoding, the tombstoned one may not.
 func c10OrderedCase(r *fw.Rand, index string) fw.Case {
 	monitored := r.Intn(4) == 0
+	held := !monitored && r.Intn(3) == 0
 	ops := []string{"reset " + index}
 	live := map[string]bool{}
 	nf := 2 + r.Intn(3)
@@ -209,6 +210,9 @@ func c10OrderedCase(r *fw.Rand, index string) fw.Case {
 		verb := "del"
 		if d == 0 && monitored {
 			verb = "delmon" // compactions are switched on from outside in mid-delete
+		}
+		if d == 0 && held {
+			verb = "delheld" // the engine's own compaction of all files is about to install
 		}
 		ops = append(ops, fmt.Sprintf("%s %s - %d %d", verb, series[r.Intn(len(series))][0], lo, hi))
 	}
